@@ -49,6 +49,7 @@ func WaitCond(ctx context.Context, cond *sync.Cond, fn func() bool) error {
 				defer cancel()
 				go func() {
 					<-ctx.Done()
+					verifPoint(verifWaitCondWatcherWoken)
 					locked := false
 					if l := cond.L; l != nil {
 						locked = true
@@ -65,6 +66,7 @@ func WaitCond(ctx context.Context, cond *sync.Cond, fn func() bool) error {
 		if fn() {
 			return nil
 		}
+		verifPoint(verifWaitCondBeforePark)
 		cond.Wait()
 	}
 }
